@@ -780,7 +780,15 @@ class C33(PropertyCheck):
         elif aborted:
             fates = [{"k": "killed", "num": 1, "den": 1, "orphan": False}]
         if recv:
-            fates.append({"k": "returns", "rc": RC_BY_VALUE[int(recv[-1])]})
+            # The log line prints the WorkerReturnCode (0 = the worker delivered a result, 1 = it delivered an
+            # error result), NOT the pipeline's ReturnCode carried inside the result.  What the delivered
+            # pipeline code was is only visible in the exit status (a worker that runs out of search time
+            # under load legitimately delivers NO_TESTS_GENERATED): it is an input of the model, not a
+            # prediction.  `ok-without-delivery` above still ties exit code 0 to a delivered OK result.
+            if recv[-1] == "0":
+                fates.append({"k": "returns", "rc": RC_BY_VALUE.get(run["rc"], "ok")})
+            else:
+                fates.append({"k": "raises"})
         elif not aborted:
             fates.append({"k": "raises"})  # no result line and no abort: must not happen; model will disagree
         case = {"search_time": T0, "use_mw": True, "subprocess": False, "sir": True, "fates": fates}
